@@ -246,32 +246,57 @@ Fixpoint set_nth {A} (i : nat) (x : A) (l : list A) : list A :=
   | y :: l', S i' => y :: set_nth i' x l'
   end.
 
+(* getLengthWithoutLastLabel(qName, qLength): walks the labels while i < qLength-1
+   and returns 1 + the offset of the last label reached (the Go index is a byte;
+   names are at most 255 bytes long, so it does not wrap) *)
+Fixpoint glwll (fuel : nat) (q : bytes) (bound i last : nat) : result nat :=
+  match fuel with
+  | O => Err 3
+  | S f =>
+      if (i <? bound)%nat then
+        (if (length q <=? i)%nat then Err 1
+         else glwll f q bound (i + N.to_nat (nth i q 0) + 1) i)
+      else Ok (last + 1)%nat
+  end.
+Definition length_without_last_label (q : bytes) (qlen : nat) : result nat :=
+  glwll (S (length q)) q (qlen - 1) 0 0.
+
 (* findMapInSortedData: [arr] is the array behind k (its length is cap(k)), [klen]
-   the current length of k, [suffix] the byte written at k[len(k)-1] *)
-Fixpoint v2_find_map_loop (fuel : nat) (db : list kv) (rz arr : bytes) (klen : nat) (suffix : N)
+   the current length of k, [suffix] the byte written at k[len(k)-1], [curlen] the
+   length of the labels of the name being probed *)
+Fixpoint v2_find_map_loop (fuel : nat) (db : list kv) (rz arr : bytes) (klen : nat) (suffix : N) (curlen : nat)
   : result (option bytes) :=
   match fuel with
   | O => Err 3
   | S f =>
       let arr1 := set_nth (klen - 1) suffix arr in
       let k := firstn klen arr1 in
-      match seek_prev db k with
-      | None => Ok None
+      let fnd := seek_prev db k in
+      let exact := match fnd with Some (fk, _) => bytes_eqb fk k | None => false end in
+      match fnd with
       | Some (fk, fv) =>
-          if bytes_eqb fk k then
+          if exact then
             (if (length fv <? 4)%nat then Err 1 else Ok (Some (skipn 4 fv)))
+          else if (curlen =? 0)%nat then Ok None
           else if (length fk <? 2)%nat || negb (bytes_eqb (firstn 2 fk) (firstn 2 k)) then Ok None
           else if (length fk <? 3)%nat then Err 1
           else
             let fl := firstn (length fk - 3) (skipn 2 fk) in
             match common_prefix rz fl with
             | Err e => Err e
-            | Ok len =>
-                if (len =? 0)%nat then Ok None
-                else if (klen <=? 2 + len)%nat then Err 1            (* k[prefixLen+length] = 0 *)
-                else if (length arr <? 2 + len + 2)%nat then Err 1   (* k = k[:prefixLen+length+2] *)
-                else v2_find_map_loop f db rz (set_nth (2 + len) 0 arr1) (2 + len + 2) 42
+            | Ok len0 =>
+                let lenr := if (curlen <? len0)%nat
+                            then rbind (length_without_last_label rz (curlen + 1)) (fun x => Ok (x - 1)%nat)
+                            else Ok len0 in
+                match lenr with
+                | Err e => Err e
+                | Ok len =>
+                    if (klen <=? 2 + len)%nat then Err 1                 (* k[prefixLen+length] = 0 *)
+                    else if (length arr <? 2 + len + 2)%nat then Err 1   (* k = k[:prefixLen+length+2] *)
+                    else v2_find_map_loop f db rz (set_nth (2 + len) 0 arr1) (2 + len + 2) 42 len
+                end
             end
+      | None => Ok None
       end
   end.
 
@@ -280,7 +305,7 @@ Definition v2_find_map (db : list kv) (mtype q : bytes) : result (option bytes) 
   | None => Err 1
   | Some rz =>
       let arr := mtype ++ rz ++ [61] in
-      v2_find_map_loop (S (length q)) db rz arr (length arr) 61
+      v2_find_map_loop (length q + 2) db rz arr (length arr) 61 (length rz - 1)
   end.
 
 (* ---------------------------------------------------------------- GetLocationByMap *)
@@ -290,8 +315,9 @@ Record client := mkClient { c_ip : option N; c_bits : N; c_ones : N }.
 
 Definition c_isv4 (c : client) : bool := match c_ip c with Some a => is_v4 a | None => false end.
 Definition c_addr (c : client) : N := match c_ip c with Some a => a | None => 0 end.
-(* Mask.Size(): CIDRMask(ones, bits) is nil when ones > bits *)
+(* Mask.Size(): CIDRMask(ones, bits) is nil when ones > bits, then (0, 0) *)
 Definition c_size (c : client) : N := if c_bits c <? c_ones c then 0 else c_ones c.
+Definition c_maskbits (c : client) : N := if c_bits c <? c_ones c then 0 else c_bits c.
 (* ipnet.IP.Mask(ipnet.Mask); None = nil *)
 Definition c_masked (c : client) : option N :=
   match c_ip c with
@@ -304,7 +330,7 @@ Definition c_masked (c : client) : option N :=
 
 Definition rdb_get_location (db : list kv) (m : mapid) (c : client) : result (option bytes * N) :=
   let ip := match c_masked c with Some x => x | None => c_addr c end in
-  let req := c_size c + (if c_isv4 c then 96 else 0) in
+  let req := c_size c + (if c_isv4 c && (c_maskbits c =? 32) then 96 else 0) in
   let pre := rp_marker ++ mapid_bytes m in
   let full := pre ++ ip16 ip ++ [req mod 256] in
   match seek_prev db full with
@@ -340,8 +366,8 @@ Fixpoint cdb_loop (db : list kv) (m : mapid) (isv4 : bool) (maxmask cur : N) (ma
   end.
 
 Definition cdb_get_location (sep : bool) (db : list kv) (m : mapid) (c : client) : result (option bytes * N) :=
-  let isv4 := c_isv4 c in
-  let maxmask := ((c_size c) mod 256 + (if isv4 then 96 else 0)) mod 256 in
+  let maxmask := ((c_size c) mod 256 + (if c_isv4 c && (c_maskbits c =? 32) then 96 else 0)) mod 256 in
+  let isv4 := c_isv4 c && (96 <=? maxmask) in
   let bk := if sep then (if isv4 then [0; 52] else [0; 54]) else [0; 47] in
   match get db bk with
   | None => Ok (None, 0)
@@ -389,4 +415,32 @@ Definition ecs_scope (fam : N) (l : location) : option location * N :=
     (Some l, if fam =? 1 then (l_mask l + 256 - 96) mod 256 else l_mask l mod 256)
   else (None, if fam =? 2 then 48 else 24).
 Definition ecs_location (b : backend) (db : list kv) (q : bytes) (fam src a : N) : result (option location * N) :=
+  if negb ((fam =? 1) || (fam =? 2)) then Ok (None, 0) else
   rbind (locate b db [0; 56] q (ecs_client fam src a)) (fun l => Ok (ecs_scope fam l)).
+
+(* ---------------------------------------------------------------- range points read by predecessor search *)
+
+(* the order of range point keys within one map: (address, mask-length byte) *)
+Definition pt_leb (ip1 m1 ip2 m2 : N) : bool := (ip1 <? ip2) || ((ip1 =? ip2) && (m1 <=? m2)).
+
+Fixpoint pt_seek_aux (best : option point) (pts : list point) (a plen : N) : option point :=
+  match pts with
+  | [] => best
+  | p :: pts' =>
+      if pt_leb (p_ip p) (rp_mlen p) a plen then
+        match best with
+        | Some b => if pt_leb (p_ip p) (rp_mlen p) (p_ip b) (rp_mlen b) then pt_seek_aux best pts' a plen
+                    else pt_seek_aux (Some p) pts' a plen
+        | None => pt_seek_aux (Some p) pts' a plen
+        end
+      else pt_seek_aux best pts' a plen
+  end.
+
+(* location and matched length for the (masked) client address a with prefix length
+   plen, read off the range points of one map: the point with the greatest
+   (address, mask byte) <= (a, plen) *)
+Definition pt_locate (pts : list point) (a plen : N) : option (locid * N) :=
+  match pt_seek_aux None pts a plen with
+  | Some p => if rl_null (p_loc p) then None else Some (rl_id (p_loc p), rl_mask (p_loc p))
+  | None => None
+  end.
